@@ -376,7 +376,8 @@ def r_wellformed(ctx, model):
             for k in range(1, len(parts)):
                 outer = mod.funcs.get(".".join(parts[:k]))
                 if outer is not None:
-                    outer_locals |= DefiniteAssignment.collect_locals(outer) | {a.arg for a in outer.args.args + outer.args.kwonlyargs}
+                    outer_locals |= DefiniteAssignment.collect_locals(outer) | {a.arg for a in outer.args.posonlyargs + outer.args.args + outer.args.kwonlyargs} \
+                        | {a.arg for a in (outer.args.vararg, outer.args.kwarg) if a is not None}
             for name, node, path in da.problems:
                 key = (mname, q, name)
                 if (mname, q, name) in seen:
